@@ -582,27 +582,27 @@ func ruleMemVisibility(c *Ctx, r *Reporter) {
 			}
 		})
 		for _, fn := range bodies {
-		for _, l := range GenericLoops(fn) {
-			hasVis, adv := false, false
-			for _, b := range fn.Blocks {
-				if !l.Contains(b) {
-					continue
-				}
-				for _, ins := range b.Instrs {
-					if call, ok := ins.(*ssa.Call); ok && call.Call.StaticCallee() == vis {
-						hasVis = true
+			for _, l := range GenericLoops(fn) {
+				hasVis, adv := false, false
+				for _, b := range fn.Blocks {
+					if !l.Contains(b) {
+						continue
 					}
-					if st, ok := ins.(*ssa.Store); ok {
-						if fv := fieldVarOf(st.Addr); fv != nil && fv.Name() == "current" {
-							adv = true
+					for _, ins := range b.Instrs {
+						if call, ok := ins.(*ssa.Call); ok && call.Call.StaticCallee() == vis {
+							hasVis = true
+						}
+						if st, ok := ins.(*ssa.Store); ok {
+							if fv := fieldVarOf(st.Addr); fv != nil && fv.Name() == "current" {
+								adv = true
+							}
 						}
 					}
 				}
+				if hasVis && adv {
+					found = true
+				}
 			}
-			if hasVis && adv {
-				found = true
-			}
-		}
 		}
 		r.Check(found, "memtable.Iterator."+mn, c.FnPos(fn), "positions past nodes that are invisible in the snapshot", "does not skip nodes that are invisible in the iterator's snapshot: the iterator can rest on an invisible node and report itself exhausted")
 	}
@@ -642,40 +642,40 @@ func ruleMemVisibility(c *Ctx, r *Reporter) {
 			}
 		})
 		for _, bd := range bodies {
-		seqParam := bd.seq
-		AllInstrs(bd.fn, false, func(_ *ssa.Function, ins ssa.Instruction) {
-			name, addr, cc := atomicCall(ins)
-			if name != "Store" || fieldVarOf(addr) != nsf {
-				return
-			}
-			bo, isB := cc.Args[1].(*ssa.BinOp)
-			if !isB || bo.Op != token.ADD || bo.X != ssa.Value(seqParam) {
-				return
-			}
-			g := func(cond ssa.Value) (bool, bool) {
-				b2, ok := cond.(*ssa.BinOp)
-				if !ok {
+			seqParam := bd.seq
+			AllInstrs(bd.fn, false, func(_ *ssa.Function, ins ssa.Instruction) {
+				name, addr, cc := atomicCall(ins)
+				if name != "Store" || fieldVarOf(addr) != nsf {
+					return
+				}
+				bo, isB := cc.Args[1].(*ssa.BinOp)
+				if !isB || bo.Op != token.ADD || bo.X != ssa.Value(seqParam) {
+					return
+				}
+				g := func(cond ssa.Value) (bool, bool) {
+					b2, ok := cond.(*ssa.BinOp)
+					if !ok {
+						return false, false
+					}
+					x, y, op := b2.X, b2.Y, b2.Op
+					if x != ssa.Value(seqParam) {
+						x, y = y, x
+						op = flipOp(op)
+					}
+					if x != ssa.Value(seqParam) {
+						return false, false
+					}
+					_ = y
+					switch op {
+					case token.GTR, token.GEQ:
+						return true, false
+					}
 					return false, false
 				}
-				x, y, op := b2.X, b2.Y, b2.Op
-				if x != ssa.Value(seqParam) {
-					x, y = y, x
-					op = flipOp(op)
+				if GuardedBy(ins.Block(), g) {
+					ok = true
 				}
-				if x != ssa.Value(seqParam) {
-					return false, false
-				}
-				_ = y
-				switch op {
-				case token.GTR, token.GEQ:
-					return true, false
-				}
-				return false, false
-			}
-			if GuardedBy(ins.Block(), g) {
-				ok = true
-			}
-		})
+			})
 		}
 		r.Check(ok, "memtable.MemTable."+mn+":nextSeqNum", c.FnPos(fn), "nextSeqNum = seq+1 under seq > current", "the snapshot bound nextSeqNum is not maintained as a guarded maximum (+1)")
 	}
